@@ -231,7 +231,9 @@ def build_tools(impl):
                 cmds.append("gcc %s -I%s/src %s/%s.c -o %s/%s %s/libgetdata.a %s" % (cf, impl, util, u, d, u, impl, ld))
             cmds.append("gcc %s -I%s/src %s/harness/C20/utilref.c -o %s/utilref %s/libgetdata.a %s" % (cf, impl, vlib.VERIF, d, impl, ld))
             # the same differential driver under AddressSanitizer (library and binding both instrumented)
-            aimpl = vlib.build_impl("asan")
+            # address only: undefined-behaviour reports inside the C library (e.g. the shift by a BIT field's bitnum taken
+            # from a CONST that a PutConstant round made >= 64, getdata.c:1336) are the same on both twins and belong to C05/C10
+            aimpl = vlib.build_impl("", "-fsanitize=address -fno-omit-frame-pointer")
             acf = open(os.path.join(aimpl, "cflags")).read().strip()
             ald = open(os.path.join(aimpl, "ldflags")).read().strip()
             cmds.append("g++ -std=gnu++11 %s -I%s -I%s/src %s/harness/C20/cxxdiff.cpp %s/*.cpp -o %s/cxxdiff_asan %s/libgetdata.a %s" % (
